@@ -23,3 +23,7 @@ claim("C20",
       "Decides for every extern \"C\" function: the status written in each catch_panic outcome arm and in every *::ERROR/*::PANIC constant, that every failure-valued return path is preceded by a write of the thread-local last-error (helpers recognised when all their failure paths write it), that engine entry points which can run user code are called only inside catch_panic, the NUL-substitution and terminator structure of the error string, checked UTF-8 on caller memory, thread-locality of the error slot and the wrapper->engine delegation table. Equality of texts with the Rust API is not decided.",
       TB + " Behaviour on invalid pointers is outside the claim.",
       "HIR return-path rule + table rules over extern \"C\" functions")
+claim("C04",
+      "Decides the typing tables and their agreement: the admitted (left type x operator) matrix and the literal kind per arm, that every Compare implementation casts the value to the variant the parser admitted for its operator, that the (container, index kind) table is the same in the parser, in static typing and in the run-time accessors, that each documented typing check precedes the only construction of the corresponding node, and that logical nodes have static type Bool or Array(Bool). Exact acceptance of arbitrary compositions and panic-freedom of all accepted programs are not decided.",
+      TB + " User check_param implementations are outside the claim.",
+      "HIR match-arm table extraction + sibling agreement + preceding-guard rules")
